@@ -121,6 +121,7 @@ func evalProgram(w int, j job) {
 	shape := j.prog.shape()
 	kinds := j.prog.kinds()
 	sl := slots[w]
+	strict := j.fam != "edge"
 	run := func(what, src string) verdict {
 		sl.src.Store(src)
 		sl.what.Store(what)
@@ -130,7 +131,7 @@ func evalProgram(w int, j job) {
 			v.Accepted = true
 			atomic.AddInt64(&dryBytes, int64(len(src)))
 		} else {
-			v = checkSource(src)
+			v = checkSource(src, strict && what != "mutant")
 		}
 		sl.start.Store(0)
 		return v
@@ -213,7 +214,7 @@ func evalProgram(w int, j job) {
 		if err != nil {
 			vlib.Fatal("cannot split base program: %v", err)
 		}
-		for _, mk := range []string{mutDelete, mutDup, mutSwap} {
+		for _, mk := range []string{mutDelete, mutDup, mutSwap, mutCut} {
 			for at := 0; at < len(ps); at++ {
 				m := mutation{Kind: mk, At: at}
 				msrc, ok := mutate(ps, tail, m)
@@ -283,6 +284,7 @@ func seqPrograms(alpha []stmt, maxLen int) []program {
 func main() {
 	dump := flag.Bool("dump", false, "print every raw class key with counts")
 	maxSeq := flag.Int("maxseq", 0, "override the sequence length bound")
+	maxToks := flag.Int("maxtoks", 0, "debug: only programs of at most this many tokens")
 	flag.BoolVar(&dryRun, "dry", false, "enumerate and count only (no evaluation)")
 	prof := flag.String("cpuprofile", "", "write a CPU profile")
 	cfg = vlib.ParseFlags("C20", "exploration")
@@ -343,6 +345,20 @@ func main() {
 	}
 	for _, s := range alpha {
 		jobs = append(jobs, job{fam: "seq", prog: program{Family: "seq", Stmts: []stmt{s}}, comments: 2, mutants: true, layouts: both, cLayouts: both})
+	}
+	if *maxToks > 0 {
+		var keep []job
+		for _, j := range jobs {
+			n := 0
+			for _, st := range j.prog.Stmts {
+				n += len(st.Toks)
+			}
+			if n <= *maxToks {
+				keep = append(keep, j)
+			}
+		}
+		jobs = keep
+		rep.NotExhaustive("debug filter -maxtoks")
 	}
 	if cfg.Seed != 0 {
 		// the seed only permutes the enumeration order
@@ -493,7 +509,7 @@ func replay() {
 	}
 	fmt.Printf("replay class=%s\nsource:\n%s\n--- expected: oracle %q holds\n", class, rc.Src, rc.Oracle)
 	slots = []*slot{{}}
-	v := checkSource(rc.Src)
+	v := checkSource(rc.Src, rc.Family != "edge" && rc.Mutation == "")
 	fmt.Printf("accepted by parser: %v\nformatted:\n%s\n", v.Accepted, v.Formatted)
 	still := false
 	for _, f := range v.Fails {
